@@ -27,6 +27,7 @@ pub fn space_for(tier: Tier) -> Space {
         }
     }
     s.list("flagstrings", 1 + 11 + 121 + 1331, 256);
+    s.list("whitespace under x", xws_cases().len() as u64, 64);
     s
 }
 
@@ -41,6 +42,29 @@ fn flag_string(mut idx: u64) -> String {
     }
     let d = crate::util::nth_token_string(&FLAG_LETTERS, len, idx);
     gen::tokens_to_string(&FLAG_LETTERS, &d)
+}
+
+/// Acceptance under flag x: base patterns (nested class subtractions, groups,
+/// quantifiers, escapes) with one whitespace character inserted at every gap;
+/// the reference verdict is that of the reference-stripped text.
+fn xws_cases() -> Vec<String> {
+    let bases = [
+        "[a-[b]]", "[a-c-[b]]", "[^a-[b]]", "[a-[b-[c]]]", "[a-[b]]+c", "(?:a)[b-[c]]", "a{1,2}", "(?:a|b)*", "\\[a\\]b", "\\p{Lu}", "a\\1", "(a)\\1",
+        "[a b]", "[\\]a]", "a|b", "^a$", "\\d+", "[a-c]{2,}",
+    ];
+    let mut v = vec![];
+    for b in bases {
+        let cs: Vec<char> = b.chars().collect();
+        for gap in 0..=cs.len() {
+            for ws in [' ', '\t', '\n', '\r'] {
+                let mut t: String = cs[..gap].iter().collect();
+                t.push(ws);
+                t.extend(&cs[gap..]);
+                v.push(t);
+            }
+        }
+    }
+    v
 }
 
 /// Reference verdict on a flag string for the XPath dialect:
@@ -85,6 +109,38 @@ impl Check for C07 {
         let sp = space_for(ctx.tier);
         let (seg, lo, hi) = sp.locate(chunk);
         let scope_name = space::seg_scope_name(seg);
+        if let SegKind::List { name: "whitespace under x" } = seg.kind {
+            let cases = xws_cases();
+            for i in lo..hi {
+                let text = &cases[i as usize];
+                let stripped: String = refparse::strip_x(&text.chars().collect::<Vec<_>>()).iter().collect();
+                let v = refparse::parse(&stripped, Dialect::XPath, &ctx.ucd);
+                out.inc("states");
+                let got = imp::compile(text, "x", false);
+                let case = Case::new(&scope_name, text, "x").api("compile");
+                if got.is_crash() {
+                    out.inc("inconclusive_crash");
+                    continue;
+                }
+                match (&v, &got) {
+                    (Verdict::Unclear(_), _) => out.inc("ref_unclear_skipped"),
+                    (Verdict::Valid(_), Out::Ok(_)) | (Verdict::Invalid(_), Out::Err(EK::Syntax)) => {
+                        out.inc("validated");
+                        out.inc("nontrivial");
+                    }
+                    (Verdict::Valid(_), g) => {
+                        out.inc("validated");
+                        out.fail("C07", &case, "Rejects", &format!("Ok (stripped pattern {:?} is grammar-valid)", stripped), &g.show(), "flag x");
+                    }
+                    (Verdict::Invalid(why), g) => {
+                        out.inc("validated");
+                        out.fail("C07", &case, "Accepts", &format!("Err(Syntax): stripped pattern {:?}: {}", stripped, why), if g.ok().is_some() { "Ok" } else { "an error other than Syntax" }, "flag x");
+                    }
+                }
+                out.sample(J::obj(vec![("pattern", J::s(text)), ("flags", J::s("x")), ("stripped", J::s(&stripped))]));
+            }
+            return;
+        }
         if let SegKind::List { .. } = seg.kind {
             for i in lo..hi {
                 let flags = flag_string(i);
